@@ -30,15 +30,19 @@ type cliCase struct {
 	More   []gen.Ali `json:"more,omitempty"`
 	Phylip bool      `json:"phylip"`            // Phylip input (always with More)
 	F      *formula  `json:"formula,omitempty"` // a tall or long first alignment, by formula
-	Cmd    string    `json:"cmd"`
-	IG     bool      `json:"ignore_gaps"`
-	IN     bool      `json:"ignore_n"`
-	Ref    int       `json:"ref"` // reference row for the mutation commands
-	Pseudo float64   `json:"pseudocount"`
-	Log    bool      `json:"log"`
-	Norm   int       `json:"normalization"`
-	Avg    bool      `json:"average"`
-	NoGaps bool      `json:"no_gaps"`
+	// optional inputs, drawn independently so that every combination occurs
+	HasRef  bool     `json:"ref_sequence"`            // stats --per-sequences: --ref-sequence given
+	Profile []string `json:"count_profile,omitempty"` // --count-profile: rows the profile file is counted from (per-sequences, gaps --unique, mutations --unique)
+	Only    string   `json:"only,omitempty"`          // stats char --only
+	Cmd     string   `json:"cmd"`
+	IG      bool     `json:"ignore_gaps"`
+	IN      bool     `json:"ignore_n"`
+	Ref     int      `json:"ref"` // reference row for the mutation commands
+	Pseudo  float64  `json:"pseudocount"`
+	Log     bool     `json:"log"`
+	Norm    int      `json:"normalization"`
+	Avg     bool     `json:"average"`
+	NoGaps  bool     `json:"no_gaps"`
 }
 
 var cliCmds = []string{"mutations-list", "entropy", "pssm", "diff-counts", "per-sequences", "mutations-ref", "consensus", "maxchar", "stats",
@@ -127,6 +131,43 @@ func genCLI(t *rapid.T) cliCase {
 		}
 	}
 	c.IG, c.IN = rapid.Bool().Draw(t, "ig"), rapid.Bool().Draw(t, "in")
+	c.HasRef = rapid.Bool().Draw(t, "hasref")
+	switch c.Cmd {
+	case "per-sequences", "gaps-unique", "mutations-unique":
+		if c.F == nil && rapid.Bool().Draw(t, "withprofile") {
+			// one profile file serves one alignment length: a single alignment then
+			c.More = nil
+			chars := ntUpper
+			if c.Ali.Alphabet == "aa" {
+				chars = aaUpper
+			}
+			for i := rapid.IntRange(1, 4).Draw(t, "profrows"); i > 0; i-- {
+				if rapid.Bool().Draw(t, "copy") {
+					c.Profile = append(c.Profile, c.Ali.Rows[rapid.IntRange(0, len(c.Ali.Rows)-1).Draw(t, "which")].Seq)
+				} else {
+					c.Profile = append(c.Profile, gen.SeqN(t, chars, c.Ali.Length()))
+				}
+			}
+		}
+	case "char", "char-per-sequences", "char-per-sites":
+		if c.F == nil && rapid.IntRange(0, 2).Draw(t, "withonly") == 1 {
+			// an upper-case character (or the gap) of the first alignment, sometimes an absent one
+			r := c.Ali.Rows[rapid.IntRange(0, len(c.Ali.Rows)-1).Draw(t, "onlyrow")].Seq
+			ch := fold(r[rapid.IntRange(0, len(r)-1).Draw(t, "onlycol")])
+			if c.Cmd != "char-per-sites" && rapid.IntRange(0, 3).Draw(t, "absent") == 0 {
+				ch = 'W'
+			}
+			if ch == '-' || (ch >= 'A' && ch <= 'Z') {
+				c.Only = string(ch)
+			}
+			if c.Cmd == "char-per-sites" {
+				c.More = nil // the character must occur in the alignment for the per-site form
+				if strings.IndexByte(strings.Join(seqsOfAli(c.Ali), ""), ch) < 0 {
+					c.Only = "" // present only in lower case: the per-site profile is case sensitive
+				}
+			}
+		}
+	}
 	minRows := len(c.Ali.Rows)
 	if c.F != nil {
 		minRows = c.F.Rows
@@ -165,6 +206,9 @@ func blockLines(c cliCase, a gen.Ali) int {
 	case "stats":
 		return 6 + len(foldedCounts(a))
 	case "char":
+		if c.Only != "" {
+			return 2
+		}
 		return 1 + len(foldedCounts(a))
 	case "char-per-sequences", "per-sequences":
 		return 1 + n
@@ -283,6 +327,16 @@ func TestCLI(t *testing.T) {
 			args = []string{"stats", "gaps", "--unique", "-i", in}
 		case "mutations-unique":
 			args = []string{"stats", "mutations", "--unique", "-i", in}
+		}
+		if c.Only != "" {
+			args = append(args, "--only="+c.Only)
+		}
+		if c.Profile != nil {
+			pf := cli.TempFile(dir, ".profile", profileFile(c.Profile))
+			defer os.Remove(pf)
+			args = append(args, "--count-profile", pf)
+		}
+		switch c.Cmd {
 		case "mutations-ref":
 			args = []string{"stats", "mutations", "--ref-sequence", refName, "-i", in}
 		case "mutations-list":
@@ -309,7 +363,10 @@ func TestCLI(t *testing.T) {
 		case "alleles":
 			args = []string{"stats", "alleles", "-i", in}
 		case "per-sequences":
-			args = []string{"stats", "--per-sequences", "--ref-sequence", refName, "-i", in}
+			args = append([]string{"stats", "--per-sequences", "-i", in}, args...)
+			if c.HasRef {
+				args = append(args, "--ref-sequence", refName)
+			}
 		}
 		if c.Phylip {
 			args = append(args, "-p")
@@ -403,7 +460,6 @@ func TestCLI(t *testing.T) {
 			}
 			tb := all[pos : pos+size]
 			pos += size
-			w := wildOf(a.Alphabet)
 			switch c.Cmd {
 			case "consensus":
 				rows := []gen.Row{{Name: "consensus", Seq: cons[ai]}}
@@ -439,6 +495,10 @@ func TestCLI(t *testing.T) {
 			case "stats", "char":
 				want := foldedCounts(a)
 				ks := sortedKeys(want)
+				if c.Only != "" {
+					ks = []string{c.Only} // only this line; 0 when the character does not occur
+					o.Class("--only")
+				}
 				i := 0
 				if c.Cmd == "stats" {
 					if len(tb) < 5 || strings.Join(tb[0], "=") != "length="+strconv.Itoa(l) || strings.Join(tb[1], "=") != "nseqs="+strconv.Itoa(n) {
@@ -484,6 +544,10 @@ func TestCLI(t *testing.T) {
 			case "char-per-sequences":
 				want := foldedCounts(a)
 				ks := sortedKeys(want)
+				if c.Only != "" {
+					ks = []string{c.Only}
+					o.Class("--only")
+				}
 				if len(tb) != n+1 || strings.Join(tb[0], "\t") != "seq\t"+strings.Join(ks, "\t") {
 					return fail("header seq + %v and %d lines expected", ks, n)
 				}
@@ -506,7 +570,12 @@ func TestCLI(t *testing.T) {
 				}
 				hdr := tb[0][1:]
 				want := foldedCounts(a)
-				if len(hdr) != len(want) {
+				if c.Only != "" {
+					o.Class("--only")
+					if len(hdr) != 1 || hdr[0] != c.Only {
+						return fail("header %v, --only %s", hdr, c.Only)
+					}
+				} else if len(hdr) != len(want) {
 					return fail("header %v, the alignment holds %v", hdr, sortedKeys(want))
 				}
 				for j := 0; j < l; j++ {
@@ -523,39 +592,30 @@ func TestCLI(t *testing.T) {
 				}
 				o.NonTrivial = o.NonTrivial || len(hdr) > 1
 			case "gaps-unique", "mutations-unique":
-				gu, mu, muO := make([]int, n), make([]int, n), make([]int, n)
-				for j := 0; j < l; j++ {
-					cells := col(a, j)
-					cnt := map[uint8]int{}
-					for _, ch := range cells {
-						cnt[ch]++
-					}
-					for i2, ch := range cells {
-						if cnt[ch] != 1 {
-							continue
-						}
-						if ch == '-' {
-							gu[i2]++
-						} else if isSpecial(a.Alphabet, ch) {
-							muO[i2]++ // '*', '.', '?', X in nucleotides: counted or not
-						} else if ch != w {
-							mu[i2]++
-						}
-					}
-				}
-				want, opt := gu, make([]int, n)
+				u := uniqueCounts(a, c.Profile)
+				want, opt := [3][]int{u.gu, u.gn, u.gb}, [3][]int{make([]int, n), make([]int, n), make([]int, n)}
 				if c.Cmd == "mutations-unique" {
-					want, opt = mu, muO
+					want, opt = [3][]int{u.mu, u.mn, u.mb}, [3][]int{u.muO, u.mnO, u.mbO}
+				}
+				cells := 1 // unique; with a profile: unique, new, both
+				if c.Profile != nil {
+					cells = 3
+					o.Class("--count-profile")
 				}
 				if len(tb) != n {
 					return fail("%d lines expected", n)
 				}
 				for i2, row := range a.Rows {
-					if nb, _ := strconv.Atoi(tb[i2][len(tb[i2])-1]); len(tb[i2]) != 2 || tb[i2][0] != row.Name || nb < want[i2] || nb > want[i2]+opt[i2] {
-						return fail("line %v: %d expected for %s", tb[i2], want[i2], row.Name)
+					if len(tb[i2]) != 1+cells || tb[i2][0] != row.Name {
+						return fail("line %v: name and %d cells expected for %s", tb[i2], cells, row.Name)
 					}
-					o.Ambiguous += opt[i2]
-					if want[i2] > 0 {
+					for k := 0; k < cells; k++ {
+						if nb, _ := strconv.Atoi(tb[i2][1+k]); nb < want[k][i2] || nb > want[k][i2]+opt[k][i2] {
+							return fail("line %v: cell %d (unique/new/both): %d expected for %s", tb[i2], k, want[k][i2], row.Name)
+						}
+						o.Ambiguous += opt[k][i2]
+					}
+					if want[0][i2] > 0 {
 						o.NonTrivial = true
 					}
 				}
@@ -716,51 +776,79 @@ func TestCLI(t *testing.T) {
 				if len(tb) != n+1 {
 					return fail("header and %d lines expected", n)
 				}
+				// the cells are read by the name of their column
 				idx := map[string]int{}
 				for k, h := range tb[0] {
+					if _, dup := idx[h]; dup {
+						return fail("column %s twice in %v", h, tb[0])
+					}
 					idx[h] = k
 				}
-				for _, h := range []string{"sequence", "gaps", "gapsuniques", "mutuniques", "mutref", "length"} {
+				need := []string{"sequence", "gaps", "gapsstart", "gapsend", "gapsuniques", "gapsopenning", "mutuniques", "length"}
+				if c.Profile != nil {
+					need = append(need, "gapsnew", "gapsboth", "mutsnew", "mutsboth")
+					o.Class("--count-profile")
+				}
+				if c.HasRef {
+					need = append(need, "mutref")
+					o.Class("--ref-sequence")
+				}
+				if ai == 0 {
+					o.Class("per-sequences:ref-sequence=%v,count-profile=%v", c.HasRef, c.Profile != nil)
+				}
+				wantChars := foldedCounts(a)
+				if len(tb[0]) != len(need)+len(wantChars) {
+					return fail("header %v: the %d columns %v and one per character expected", tb[0], len(need), need)
+				}
+				for _, h := range need {
 					if _, ok := idx[h]; !ok {
 						return fail("column %s missing in %v", h, tb[0])
 					}
 				}
+				u := uniqueCounts(a, c.Profile)
 				for i2, row := range a.Rows {
 					f := tb[i2+1]
 					if len(f) != len(tb[0]) || f[idx["sequence"]] != row.Name {
 						return fail("line %v", f)
 					}
-					gu, mu, muO := 0, 0, 0
-					for j := 0; j < l; j++ {
-						cnt := 0
-						for _, ch := range col(a, j) {
-							if ch == row.Seq[j] {
-								cnt++
-							}
-						}
-						if cnt == 1 && row.Seq[j] == '-' {
-							gu++
-						} else if cnt == 1 && isSpecial(a.Alphabet, row.Seq[j]) {
-							muO++
-						} else if cnt == 1 && row.Seq[j] != w {
-							mu++
+					geti := func(h string) int { v, _ := strconv.Atoi(f[idx[h]]); return v }
+					gaps := strings.Count(row.Seq, "-")
+					gstart := len(row.Seq) - len(strings.TrimLeft(row.Seq, "-"))
+					gend := len(row.Seq) - len(strings.TrimRight(row.Seq, "-"))
+					gopen := 0
+					for k := 0; k < l; k++ {
+						if row.Seq[k] == '-' && (k == 0 || row.Seq[k-1] != '-') {
+							gopen++
 						}
 					}
-					geti := func(h string) int { v, _ := strconv.Atoi(f[idx[h]]); return v }
-					okN, n1 := numAdmissible(a.Alphabet, row.Seq, ref, geti("mutref"))
-					gaps := strings.Count(row.Seq, "-")
-					if geti("gaps") != gaps || geti("gapsuniques") != gu || geti("mutuniques") < mu || geti("mutuniques") > mu+muO || !okN || geti("length") != l-gaps {
-						return fail("line %v: gaps %d gapsuniques %d mutuniques %d mutref %d length %d expected", f, gaps, gu, mu, n1, l-gaps)
+					exact := map[string]int{"gaps": gaps, "gapsstart": gstart, "gapsend": gend, "gapsopenning": gopen, "gapsuniques": u.gu[i2], "length": l - gaps}
+					ranged := map[string][2]int{"mutuniques": {u.mu[i2], u.muO[i2]}}
+					if c.Profile != nil {
+						exact["gapsnew"], exact["gapsboth"] = u.gn[i2], u.gb[i2]
+						ranged["mutsnew"], ranged["mutsboth"] = [2]int{u.mn[i2], u.mnO[i2]}, [2]int{u.mb[i2], u.mbO[i2]}
+					}
+					for _, h := range need[1:] {
+						if v, ok := exact[h]; ok && geti(h) != v {
+							return fail("line %v: column %s = %d, %d expected (row %q)", f, h, geti(h), v, row.Seq)
+						}
+						if v, ok := ranged[h]; ok && (geti(h) < v[0] || geti(h) > v[0]+v[1]) {
+							return fail("line %v: column %s = %d, %d expected (row %q)", f, h, geti(h), v[0], row.Seq)
+						}
+					}
+					n1 := 0
+					if c.HasRef {
+						var okN bool
+						if okN, n1 = numAdmissible(a.Alphabet, row.Seq, ref, geti("mutref")); !okN {
+							return fail("line %v: column mutref = %d, %d mutations of %q against %q", f, geti("mutref"), n1, row.Seq, ref)
+						}
 					}
 					wc := naiveCounts([]byte(row.Seq))
-					for ch, v := range foldedCounts(a) {
-						_ = v
-						k, ok := idx[string(ch)]
-						if !ok || geti(string(ch)) != wc[ch] || k < 0 {
-							return fail("line %v: column %c: %d expected", f, ch, wc[ch])
+					for _, ch := range sortedKeys(wantChars) {
+						if _, ok := idx[ch]; !ok || geti(ch) != wc[ch[0]] {
+							return fail("line %v: column %s: %d expected", f, ch, wc[ch[0]])
 						}
 					}
-					if mu > 0 || n1 > 0 {
+					if u.mu[i2] > 0 || n1 > 0 {
 						o.NonTrivial = true
 					}
 				}
@@ -771,6 +859,87 @@ func TestCLI(t *testing.T) {
 		}
 		return o, nil
 	})
+}
+
+func seqsOfAli(a gen.Ali) []string {
+	out := make([]string, len(a.Rows))
+	for i, r := range a.Rows {
+		out[i] = r.Seq
+	}
+	return out
+}
+
+// profileFile: the table `goalign stats char --per-sites` prints: "site", one column per character that
+// occurs in the rows, one line per site
+func profileFile(rows []string) string {
+	present := map[uint8]bool{}
+	for _, r := range rows {
+		for i := 0; i < len(r); i++ {
+			present[r[i]] = true
+		}
+	}
+	var hdr []int
+	for k := range present {
+		hdr = append(hdr, int(k))
+	}
+	sort.Ints(hdr)
+	var sb strings.Builder
+	sb.WriteString("site")
+	for _, h := range hdr {
+		sb.WriteString("\t" + string(rune(h)))
+	}
+	sb.WriteString("\n")
+	for j := 0; j < len(rows[0]); j++ {
+		sb.WriteString(strconv.Itoa(j))
+		for _, h := range hdr {
+			sb.WriteString("\t" + strconv.Itoa(profCount(rows, uint8(h), j)))
+		}
+		sb.WriteString("\n")
+	}
+	return sb.String()
+}
+
+// uniq: per row, the gaps / residues that are unique in their column, new against the profile, both;
+// the O slices hold the optional part (special characters, see checkUnique)
+type uniq struct{ gu, gn, gb, mu, mn, mb, muO, mnO, mbO []int }
+
+func uniqueCounts(a gen.Ali, profile []string) uniq {
+	n := len(a.Rows)
+	mk := func() []int { return make([]int, n) }
+	u := uniq{mk(), mk(), mk(), mk(), mk(), mk(), mk(), mk(), mk()}
+	w := wildOf(a.Alphabet)
+	for j := 0; j < a.Length(); j++ {
+		cells := col(a, j)
+		cnt := map[uint8]int{}
+		for _, ch := range cells {
+			cnt[ch]++
+		}
+		for i, ch := range cells {
+			isNew := profile != nil && profCount(profile, ch, j) == 0
+			one := cnt[ch] == 1
+			add := func(un, nw, bo []int) {
+				if one {
+					un[i]++
+				}
+				if isNew {
+					nw[i]++
+				}
+				if one && isNew {
+					bo[i]++
+				}
+			}
+			switch {
+			case ch == '-':
+				add(u.gu, u.gn, u.gb)
+			case ch == w:
+			case isSpecial(a.Alphabet, ch):
+				add(u.muO, u.mnO, u.mbO)
+			default:
+				add(u.mu, u.mn, u.mb)
+			}
+		}
+	}
+	return u
 }
 
 func allRows(alis []gen.Ali) []gen.Row {
